@@ -75,7 +75,19 @@ def run_case(res, case):
         pattern = []
         for k in range(nsend):
             # change the message between sends, the way the C-FIND / C-MOVE providers do
-            if k or r.random() < 0.7:
+            lists = sorted(kw for kw, v in (values or {}).items() if isinstance(v, list))
+            if k and lists and r.random() < 0.4:
+                # nothing changes between two sends but a multi-valued element, in place
+                kw = r.choice(lists)
+                extra = r.randrange(0, 0xFFFFFFFF)
+                if r.random() < 0.6:
+                    getattr(msg.command_set, kw).append(extra)
+                    values[kw] = list(values[kw]) + [extra]
+                else:
+                    getattr(msg.command_set, kw)[0] = extra
+                    values[kw] = [extra] + list(values[kw])[1:]
+                res.count('sim.only-a-list-changed-in-place')
+            elif k or r.random() < 0.7:
                 choice = r.random()
                 if choice < 0.45:
                     size = r.choice([1, 2, 7, 8, 100, 1000])
